@@ -136,6 +136,14 @@ def directed():
                        + [["turns", turns], ["cancel_sends"], ["unstall"], ["adv", 0.5],
                           ["send", "zone_ctrl", "idem", "inline"], ["fin"], ["adv", 3.0],
                           ["send", "ac_ctrl", "idem", "inline"], ["adv", 1.0]])
+    # a console that stops reading for a long time while a message is being written, and then
+    # reads again: no fault ever occurs, everything arrives once
+    for graceful in (False, True):
+        for pause in (5.0, 12.0, 35.0, 100.0):
+            for pol in ("idem", "long", "nonidem"):
+                out.append([["q"], ["stall"] + (["graceful"] if graceful else []),
+                            ["send", "zone_ctrl", pol, "t1"], ["adv", pause], ["unstall"],
+                            ["adv", 3.0], ["send", "ac_ctrl", "idem", "inline"], ["adv", 1.0]])
     # accepted on a healthy link and the socket closed in the very next statement: what send()
     # has accepted while connected is on the wire when it returns
     for n in (1, 3):
